@@ -13,6 +13,8 @@ use std::collections::HashMap;
 use vq_util::json;
 
 pub struct C10 {
+    /// time of the last window reduction per CUBIC controller
+    last_reduction: HashMap<u64, u64>,
     /// on_packet_sent observation waiting for the packet_sent event of the same packet
     pending: HashMap<EpId, CcObs>,
     mtu: HashMap<u64, u16>,
@@ -21,6 +23,7 @@ pub struct C10 {
 impl C10 {
     pub fn new(_p: &Params) -> Self {
         C10 {
+            last_reduction: HashMap::new(),
             pending: HashMap::new(),
             mtu: HashMap::new(),
         }
@@ -103,6 +106,8 @@ impl Monitor for C10 {
                 }
             }
             CcCall::Ecn { .. } => {
+                cx.feature("cc_ecn");
+                cx.summary.count("c10.ecn_congestion_calls", 1);
                 if !o.bbr && o.cwnd_after > o.cwnd_before {
                     cx.violate(
                         "C10",
@@ -113,6 +118,39 @@ impl Monitor for C10 {
                 }
             }
             _ => {}
+        }
+        // CUBIC shrinks the window at most once per round trip: a second reduction can only be
+        // caused by a packet sent after the first one, and nothing sent after an instant can
+        // be acknowledged or overtaken earlier than one network round trip later. The window
+        // collapse of persistent congestion is exempt (RFC 9002 7.6.2).
+        if !o.bbr {
+            let reduced = match &o.call {
+                CcCall::Lost { persistent, .. } => !*persistent && o.cwnd_after < o.cwnd_before,
+                CcCall::Ecn { .. } => o.cwnd_after < o.cwnd_before,
+                _ => false,
+            };
+            if reduced {
+                let now = cx.now;
+                let min_factor = cx.params.net.rebind_delay_permille.iter().copied().min().unwrap_or(1000).min(1000);
+                let net_rtt = 2 * cx.params.net.delay_us * min_factor / 1000;
+                cx.summary.count("c10.cubic_window_reductions", 1);
+                if let Some(prev) = self.last_reduction.insert(o.cc_id, now) {
+                    if now > prev {
+                        cx.summary.min("c10.min_gap_between_reductions_in_network_rtts_permille", ((now - prev) * 1000 / net_rtt.max(1)) as i64);
+                    }
+                    if now - prev + 1_000 < net_rtt {
+                        cx.violate(
+                            "C10",
+                            "cubic-reduced-twice-within-rtt",
+                            format!(
+                                "ep{} cc{}: CUBIC window reduced at {}us ({} -> {}) only {}us after the previous reduction; the network round trip is at least {}us",
+                                o.ep, o.cc_id, now, o.cwnd_before, o.cwnd_after, now - prev, net_rtt
+                            ),
+                            json!({"obs": format!("{o:?}"), "previous_reduction_us": prev, "network_rtt_us": net_rtt}),
+                        );
+                    }
+                }
+            }
         }
         // the floor holds after every call
         if let Some(mtu) = self.mtu.get(&o.cc_id) {
